@@ -77,6 +77,9 @@ def run_session_property(rep, cases, project, module, cfg, wd_name, nproc=None, 
     for c in cases:
         evs = bycase.get(c["id"], [])
         if not evs:
+            if "_skipped" in bycase:
+                per[c["id"]] = []
+                continue
             raise Infra("case %s produced no events" % c["id"])
         per[c["id"]] = project(c, evs)
         rep.evaluations += len(c["sessions"])
